@@ -24,14 +24,7 @@ def make_storage(provider: str, d: Path):
     import labtech
     if provider == 'local':
         return labtech.storage.LocalStorage(d)
-    from fsspec.implementations.local import LocalFileSystem
-
-    class LocalFsspecStorage(labtech.storage.FsspecStorage):     # the reference implementation of storage.py's comments
-        def __init__(self, storage_dir):
-            super().__init__(Path(storage_dir).resolve())
-
-        def fs_constructor(self):
-            return LocalFileSystem()
+    from lv.universe.faults import LocalFsspecStorage
     return LocalFsspecStorage(d)
 
 
